@@ -97,10 +97,46 @@ fn wild_neighbour(r: &mut Rng, v: &str) -> String {
     c.into_iter().collect()
 }
 
+/// A cluster of short versions around a representation boundary (2^k, 10^k):
+/// the same prefix with the boundary number, its neighbours, small numbers,
+/// and longer equal-valued spellings of each.
+fn boundary_cluster(r: &mut Rng) -> Vec<String> {
+    let prefix = match r.below(4) {
+        0 => String::new(),
+        1 => format!("{}.", r.below(3)),
+        2 => format!("{}.{}.", r.below(3), r.below(3)),
+        _ => format!("{}_", r.below(3)),
+    };
+    let b: i128 = gv::boundary_num(r).parse().unwrap_or(0);
+    let mut out = vec![];
+    for d in -3i128..=3 {
+        let v = (b + d).max(0);
+        if v.to_string().len() <= 18 {
+            out.push(format!("{prefix}{v}"));
+        }
+    }
+    for small in [0i128, 1, 5, 1000] {
+        out.push(format!("{prefix}{small}"));
+        out.push(format!("{prefix}{small}.0"));
+        out.push(format!("{prefix}{small}.0.0.0.0"));
+    }
+    out.push(format!("{prefix}{b}.0"));
+    out.push(format!("{prefix}{b}.0.0.0.0.0"));
+    out.push(format!("{prefix}{b}rc1"));
+    out.push(format!("{prefix}{b}nb1"));
+    out
+}
+
 /// A pool: clusters of a seed string and its near neighbours.
 fn pool(r: &mut Rng, n: usize) -> Vec<String> {
     let mut out: Vec<String> = vec![String::new()];
     while out.len() < n {
+        if r.chance(1, 5) {
+            let mut c = boundary_cluster(r);
+            c.truncate(n - out.len());
+            out.extend(c);
+            continue;
+        }
         let seed = if r.chance(1, 3) { wild(r) } else { gv::v(r) };
         let k = r.range(4, 30).min(n - out.len());
         out.push(seed.clone());
